@@ -54,9 +54,11 @@ theorem orphans_nil_iff (utxo : List Nat) (txs : List Tx) : orphans utxo txs = [
 /-! ### outcomes of `add_to_pool` -/
 
 theorem isAcceptable_over {c : Ctx} {s : TxPool} {t : Tx} {stem : Bool} (h : s.txpool.length > c.cfg.maxPool) :
-    s.isAcceptable c t stem = some "OverCapacity" := by
+    s.isAcceptable c t stem = some "OverCapacity" ∨ s.isAcceptable c t stem = some "LowFee" := by
   unfold TxPool.isAcceptable
-  simp [h]
+  by_cases hf : t.shiftedFee < t.acceptFee c.cfg
+  · right; simp [hf]
+  · left; simp [hf, h]
 
 /-- `all_transactions_aggregate` without any assumption on the pool -/
 theorem allAggregate_ok {c : Ctx} {p : Pool} {extra x : Option Tx} (h : Pool.allAggregate c p extra = .ok x) :
@@ -142,7 +144,9 @@ theorem addCore_outcome_fluff (c : Ctx) (s : TxPool) (src : Src) (tx : Tx) (stem
         (by rw [addToReorgCache_txpool, addToReorgCache_stempool]; exact h3)
     · have hov : s.txpool.length > c.cfg.maxPool := by omega
       have hyes : (!false && TxPool.isAcceptable c s entry.tx false == some "OverCapacity") = true := by
-        simp [isAcceptable_over (t := entry.tx) (stem := false) hov]
+        rcases isAcceptable_over (t := entry.tx) (stem := false) hov with h | h
+        · simp [h]
+        · exfalso; apply hacc; simp [h]
       simp only [hyes, if_true]
       exact .evicted s2.txpool rfl rfl hov h2 rfl h3
 
@@ -165,7 +169,8 @@ theorem addCore_outcome_stem (c : Ctx) (s : TxPool) (src : Src) (tx : Tx) (stemO
   rename_i hacc
   have hcap : s.txpool.length ≤ c.cfg.maxPool := by
     by_cases hov : s.txpool.length > c.cfg.maxPool
-    · exfalso; apply hacc; simp [isAcceptable_over (t := entry.tx) (stem := true) hov]
+    · exfalso; apply hacc
+      rcases isAcceptable_over (t := entry.tx) (stem := true) hov with h | h <;> simp [h]
     · omega
   split
   · exact .refused _ rfl
